@@ -259,11 +259,22 @@ type SexpArray struct {
 	Infix               bool
 
 	Env *Zlisp
+
+	// typing is set while Type() asks the first element for its type.
+	typing bool
 }
 
 func (r *SexpArray) Type() *RegisteredType {
 	if r.Typ == nil {
 		if len(r.Val) > 0 {
+			// an array can hold itself ((aset a 0 a)): asked for its type
+			// while it is working it out, it has none, instead of
+			// recursing until the Go stack is exhausted.
+			if r.typing {
+				return nil
+			}
+			r.typing = true
+			defer func() { r.typing = false }()
 			// take type from first element
 			ty := r.Val[0].Type()
 			// a registered type without a Go type (hash: its factory makes
